@@ -12,9 +12,14 @@ class Registry:
         self.c = {}
         self.by_name = {}
         self.meta = {}
+        self.call_c = {}        # contracts used at call sites only (assumed, weaker precondition than the proved one)
 
     def add(self, fname, func, params, fn, **meta):
         key = (fname, func)
+        if meta.get("call_only"):
+            self.call_c[key] = (fn, list(params))
+            self.by_name.setdefault(func, key)
+            return
         self.c[key] = (fn, list(params))
         self.by_name[func] = key
         self.meta[key] = meta
@@ -24,6 +29,10 @@ class Registry:
 
     def get(self, key):
         return self.c[key]
+
+    def get_call(self, key):
+        """the contract a caller sees: the call-only (assumed) one when there is one, else the verified one"""
+        return self.call_c.get(key) or self.c[key]
 
 
 REG = Registry()
